@@ -10,6 +10,8 @@
 #        grace-timer-after-last-finish grace-period-halved grace-timer-not-cancelled grace-close-only-first-leg
 #        leg capabilities / limits on established tunnels (legs.go, longevity.go): closewrite-error-closes close-when-no-closewrite
 #        read-deadline-not-cleared write-deadline-not-cleared http-dial-deadline-on-conn socks-dial-deadline-on-conn
+#        a copy direction that ends with an error (abort.go): closewrite-skipped-on-closed-conn-error
+#        closewrite-only-after-clean-eof copy-error-returns-without-done
 # BASE_PATCH=<file> (optional): a patch applied after the reset and before the mutation (a repair that
 # is not committed in /repo yet, e.g. the one of F29 while it is under review).
 set -e
@@ -196,6 +198,32 @@ elif m=='http-dial-deadline-on-conn': # the upstream proxy dialer's Timeout as a
 elif m=='socks-dial-deadline-on-conn': # the same for the SOCKS5 dialer, read side only
     edit('dialvia/socks5.go','\treturn sdctx.DialContext(ctx, network, addr)\n',
          '\tconn, err := sdctx.DialContext(ctx, network, addr)\n\tif err == nil && d.Timeout > 0 {\n\t\tconn.SetReadDeadline(time.Now().Add(d.Timeout))\n\t}\n\treturn conn, err\n')
+PY
+ ;;
+ closewrite-skipped-on-closed-conn-error|closewrite-only-after-clean-eof|copy-error-returns-without-done)
+   M="$1" python3 - <<'PY'
+import os
+p=os.environ['WT']+'/internal/martian/copy.go'
+s=open(p).read()
+m=os.environ['M']
+old="""	if _, err := io.CopyBuffer(c.dst, c.src, buf); err != nil && !isClosedConnError(err) {
+		log.Error(ctx, "failed to copy tunnel", "name", c.name, "error", err)
+	}
+	c.closeWriter(ctx)
+"""
+assert old in s
+head="""	_, err := io.CopyBuffer(c.dst, c.src, buf)
+	if err != nil && !isClosedConnError(err) {
+		log.Error(ctx, "failed to copy tunnel", "name", c.name, "error", err)
+	}
+"""
+if m=='closewrite-skipped-on-closed-conn-error':   # "the connection is gone, nothing left to half-close" (the family of seed c03-9)
+    new=head+"\tif err == nil || !isClosedConnError(err) {\n\t\tc.closeWriter(ctx)\n\t}\n"
+elif m=='closewrite-only-after-clean-eof':         # any copy error: the destination is not told
+    new=head+"\tif err == nil {\n\t\tc.closeWriter(ctx)\n\t}\n"
+elif m=='copy-error-returns-without-done':         # the failed direction never reports to bicopy
+    new=head+"\tc.closeWriter(ctx)\n\tif err != nil {\n\t\treturn\n\t}\n"
+open(p,'w').write(s.replace(old,new))
 PY
  ;;
  *) echo "unknown mutation $1"; exit 2;;
